@@ -198,7 +198,18 @@ def extract_impl_eval(ctx, ev, orc):
                     for pd in (0, 1):
                         res, succ = step(st, idv, nd, pd)
                         if res is None or succ is None:
-                            return None, "advance(state=%s, id=%#x, no_data=%d, packet_done=%d) does not evaluate to (word, successor): %s, %s" % (st, idv, nd, pd, res, succ)
+                            # with the identifier and the two documented flag bits fixed the outcome is still open:
+                            # name the other word bits it depends on
+                            extra = ""
+                            try:
+                                slf_ = Agg(FSM + "ItsPayloadFsmContinuous", "ItsPayloadFsmContinuous", {"state_machine": Agg(vadt, st, {"0": Sym("stm")})})
+                                txt = vkey(ev.call_fn(path, [slf_, word(idv, nd, pd)]))
+                                bits_ = sorted(set(re.findall(r"W\[[0-9:,]+\]", txt)))
+                                if bits_:
+                                    extra = " — the outcome depends on word bits other than the identifier, no_data (bit %d) and packet_done (bit %d): %s" % (fb["no_data"], fb["packet_done"], ", ".join(bits_)[:200])
+                            except Unsupported:
+                                pass
+                            return None, "advance(state=%s, id=%#x, no_data=%d, packet_done=%d) does not evaluate to (word, successor): %s, %s%s" % (st, idv, nd, pd, res, succ, extra)
                         rows[(idv, nd, pd)] = (res, succ)
             table[st] = rows
     except Unsupported as e:
@@ -373,6 +384,17 @@ def run(ctx, rep):
     for lo, hi in dwo["il"] + dwo["ol"]:
         data_ids.update(range(lo, hi + 1))
 
+    # ---- the flag readers used by the FSM test exactly the documented bit, for all 2^80 words at once
+    from ..thir import Slice, ckey
+    U_ = "fastpasta::words::its::status_words::util::"
+    for fn_, bit in (("tdh_no_data", orc["flag_bit"]["no_data"]), ("tdt_packet_done", orc["flag_bit"]["packet_done"])):
+        if U_ + fn_ in f.fns:
+            try:
+                k_ = ckey(ev.as_cond(ev.call_fn(U_ + fn_, [Slice("W", 0, 10)])))
+            except Unsupported as e:
+                k_ = "unevaluable %s" % e
+            rep.check(k_ == "any(W[%d])" % bit, "R9.1", "R9.1|flag-reader|%s" % fn_, "%s(word) ⇔ bit %d of the word" % (fn_, bit), U_ + fn_,
+                      "%s tests %s, documented: bit %d alone" % (fn_, k_, bit))
     # ---- extraction + well-formedness
     # the transition function is obtained by evaluating advance() for every state × identifier × flag assignment
     # (independent of how the function is written: inline match arms, classifier helpers, guard order)
